@@ -122,6 +122,8 @@ func (o Op) Coq() string {
 			c = "CSearchBad"
 		case "noop":
 			c = "CNoop"
+		case "status":
+			c = "CStatus"
 		case "check":
 			c = "CCheck"
 		case "idle":
@@ -158,6 +160,8 @@ func (o Op) String() string {
 		s += fmt.Sprintf(" m%d %v", o.Mb, o.Flags)
 	case "store":
 		s += fmt.Sprintf(" %v %s %v silent=%v", o.Ps, o.FOp, o.Flags, o.Silent)
+	case "status":
+		s += fmt.Sprintf(" m%d", o.Mb)
 	case "copy", "move":
 		s += fmt.Sprintf(" %v m%d", o.Ps, o.Mb)
 	case "fetchbody", "fetchflagsbody", "fetchbadpart":
@@ -409,6 +413,9 @@ func (w *World) Do(o Op) (StepObs, error) {
 		r, err = c.Cmd(fmt.Sprintf("FETCH %s (BODY[9])", psString(o.Ps)))
 	case "noop":
 		r, err = c.Cmd("NOOP")
+	case "status":
+		// STATUS of another (or the same) mailbox while one is selected: the handler flushes the selected mailbox
+		r, err = c.Cmd(fmt.Sprintf("STATUS m%d (MESSAGES)", o.Mb))
 	case "check":
 		r, err = c.Cmd("CHECK")
 	case "idle":
